@@ -24,8 +24,8 @@ static void arena_free(void) { for (int i = 0; i < narena; i++) free(arena[i]); 
 static const char *SETNAMES[] = { "A", "FOO", "X_1", "path9", "v" };
 static const char *UNSETNAMES[] = { "NOPE", "U", "Q_q", "zz9" };
 static char longname_set[130], longname_unset[130];
-static const char *KEYS[] = { "k1", "k2", "kk", "zeta", "K1", "Zeta" };      /* two pairs differ only in letter case: distinct variables */
-#define NKEYS 6
+static const char *KEYS[] = { "k1", "k2", "kk", "zeta", "K1", "Zeta", "k", "zet" };      /* two pairs differ only in letter case, two names are proper prefixes of others: all distinct variables */
+#define NKEYS 8
 static int n_custom;                 /* registered customs in this case */
 static int has_dir_one, has_dir_many, has_dir_empty;
 
@@ -54,7 +54,7 @@ static void gen_var(cx_buf *b, int only_unset)
 }
 static void gen_esc(cx_buf *b)
 {
-    static const char E[] = "nrtbfaveNRTBFAVE\\'\"$%~xz0 ()";
+    static const char E[] = "nrtbfaveNRTBFAVE\\'\"$%~xz0 ()XZQWmC";      /* incl. letters without a meaning of their own, both cases: they stand for themselves */
     cx_buf_addc(b, '\\'); cx_buf_addc(b, E[vh_below(sizeof E - 1)]);
 }
 static void gen_word(cx_buf *b)
